@@ -301,6 +301,9 @@ func runC19(t *testing.T, sc *Scenario) Result {
 	}
 	for _, s := range obs.UDPSocks {
 		h, ps, _ := net.SplitHostPort(s)
+		if h == "::" {
+			h = "" // a wildcard udp socket reports [::] as its local address
+		}
 		pn, _ := strconv.Atoi(ps)
 		if pn >= 40000 && pn < 65535 && want[listenKey("udp", h, pn)] == 0 {
 			pn = 0
